@@ -17,6 +17,28 @@ CLAIMED = {
         "note": "Trusted: the harness's own bookkeeping of which wire IDs were injected (read off the wire), asyncio "
                 "scheduling semantics. Assumes no packet-ID wrap-around and carves out IDs at/below an evicted injection.",
     },
+    "C06": {
+        "text": "Seeded search over datagram sequences through the real SOCKS5 server + UDP associations + session claim + "
+                "circuits (1-2 viewers x 1-3 regions): valid template messages of every type both ways interleaved with "
+                "the discard alphabet (unknown hosts, bad SOCKS framing, truncated headers, unknown message numbers, "
+                "UDP-banned names, no circuit, pre-session), viewer disconnects, late region registration and "
+                "proxy-originated traffic. A black-box wire model predicts forward/discard per datagram; each forward "
+                "must be exactly one datagram to exactly the right peer with identical content (IDs/acks through the ID "
+                "laws), each discard must emit nothing and leave session state untouched. Sampled evidence, not proof.",
+        "design_ref": "DESIGN.md §4 C06",
+        "note": "Trusted: stub viewer/region framing code (RFC1928 + LLUDP header, written independently of the repo), "
+                "the wire model's reading of 'open circuit'. Datagrams on a closed-but-not-reopened circuit are not judged.",
+    },
+    "C02": {
+        "text": "C06's world plus passive inspectors at session, region and addon-hook level that read nothing / header / "
+                "body of seeded subsets of messages (deferred parsing on or off), in-flight body corruption (truncate, "
+                "extend, count/length byte rewrite, non-canonical re-zero-coding) and hostile text fields. Byte identity "
+                "is checked on the wire and at every inspection point (serialize(message) == datagram as received, also "
+                "after a failed parse). The input space itself is only sampled.",
+        "design_ref": "DESIGN.md §4 C02",
+        "note": "Trusted: the stub's reference zero-coder (decides canonicity) and header parser. Known finding: F32 signalling "
+                "NaNs produced by byte damage are quieted on re-encode (known_findings.json).",
+    },
 }
 
 NOT_APPLICABLE = {
